@@ -87,7 +87,9 @@ def vsig(v):
 
 class KnownFindings:
     def __init__(self, path=None):
-        self.path = path or os.path.join(VERIF, "known_findings.json")
+        # (VERIF_KNOWN_FINDINGS=<other file> is only used to regenerate the replay files of open findings: with an empty
+        # list they are reported, minimised and written like any violation)
+        self.path = path or os.environ.get("VERIF_KNOWN_FINDINGS") or os.path.join(VERIF, "known_findings.json")
         try:
             self.entries = json.load(open(self.path))["findings"]
         except FileNotFoundError:
